@@ -59,22 +59,28 @@ func Skip(data []byte, wt WireType) (int, error) {
 			if v&0x80 == 0 {
 				return i + 1, nil
 			}
-			if i > 9 {
+			if i >= 9 {
 				return 0, fmt.Errorf("VarInt does not terminate")
 			}
 		}
 		return 0, fmt.Errorf("unexpected end of data. %X", data)
 	case WT64:
+		if len(data) < 8 {
+			return 0, fmt.Errorf("not enough data for a 64 bit value. Have %d bytes", len(data))
+		}
 		return 8, nil
 	case WTLength:
 		l, n := ReadVarUint(data)
-		if n < 0 {
+		if n <= 0 {
 			return 0, fmt.Errorf("corrupt data for WTLength tag")
+		}
+		if l > uint64(len(data)-n) {
+			return 0, fmt.Errorf("length %d of WTLength field overruns data", l)
 		}
 		return int(l) + n, nil
 	case WTSlice:
 		count, n := ReadVarUint(data)
-		if n < 0 {
+		if n <= 0 {
 			return 0, fmt.Errorf("corrupt data for WTSkip tag")
 		}
 		// We now expect count length-value encoded items
@@ -84,13 +90,19 @@ func Skip(data []byte, wt WireType) (int, error) {
 				return 0, fmt.Errorf("start of entry %d of WTSlice overruns data", i)
 			}
 			l, n := ReadVarUint(data[offset:])
-			if n < 0 {
+			if n <= 0 {
 				return 0, fmt.Errorf("corrupt length for entry %d of WTSlice", i)
+			}
+			if l > uint64(len(data)-offset-n) {
+				return 0, fmt.Errorf("length %d of entry %d of WTSlice overruns data", l, i)
 			}
 			offset += int(l) + n
 		}
 		return offset, nil
 	case WT32:
+		if len(data) < 4 {
+			return 0, fmt.Errorf("not enough data for a 32 bit value. Have %d bytes", len(data))
+		}
 		return 4, nil
 	}
 	return 0, fmt.Errorf("unsupported wire type %v", wt)
